@@ -56,7 +56,8 @@ def canon(rng, maxn=2 ** 32 - 1):
         sv += "-" + ".".join(pre)
     pp = (f"{e}!" if e else "") + pp + (lab[0] + str(lab[1]) if lab else "") + (f".post{post}" if post is not None else "") + (f".dev{dev}" if dev is not None else "")
     if rng.random() < 0.4:
-        ids = [rng.choice(["abc", "x1", "1a", "g1234abc", "ubuntu", str(n()), "build", "0a", "z"]) for _ in range(rng.randint(1, 3))]
+        # short lists mostly; sometimes long ones (a cap on the number of components of a section must not exist) and equal neighbours
+        ids = [rng.choice(["abc", "x1", "1a", "g1234abc", "ubuntu", str(n()), "build", "0a", "z"]) for _ in range(rng.randint(1, 3) if rng.random() < 0.9 else rng.randint(15, 40))]
         sv += "+" + ".".join(ids)
         pp += "+" + ".".join(ids)
     nums = [int(t) for t in re.findall(r"(?<![a-z0-9])[0-9]+(?![a-z])", sv.split("+")[0])]
@@ -166,6 +167,23 @@ def run_check(tier, seed):
                 run.known_hits[KNOWN_U32] += 1        # a number was displaced or replaced instead of the conversion being rejected
             else:
                 viol("out_of_range_numbers_semver_to_pep440", "numeric field changed", [sv, o, "expected " + pp])
+    # 5. no silent change on the PEP 440 input side: a number that does not fit u32, in ANY spelling of the field (explicit labels,
+    # separators, the implicit post form X.Y-N, leading zeros), must be refused - never read as another number
+    cases = []
+    BIG = [2 ** 32, 2 ** 32 + 1, 10 ** 10, 2 ** 63, 2 ** 64, 10 ** 25]
+    for _ in range(n // 3):
+        b = str(rng.choice(BIG))
+        if rng.random() < 0.3:
+            b = "0" * rng.randint(1, 3) + b
+        base = rng.choice(["1.0", "2", "1.2.3", "1!1.0"])
+        sp = rng.choice([f"{base}-{b}", f"{base}.post{b}", f"{base}post{b}", f"{base}-post-{b}", f"{base}_rev_{b}", f"{base}.r{b}", f"{base}r{b}", f"{base}.dev{b}", f"{base}dev{b}", f"{base}-dev-{b}",
+                         f"{base}a{b}", f"{base}.rc.{b}", f"{base}-alpha-{b}", f"{base}c{b}", f"{base}pre{b}", f"{b}!{base}", f"{base}.{b}", f"{b}.0", f"{base}-{b}.dev1", f"{base}rc1-{b}",
+                         f"v{base}-{b}", f"{base}-{b}+local"])
+        cases.append(cnv("pep440", rng.choice(["pep440", "semver"]), sp))
+    rx = correspond(run, "out_of_range_numbers_in_pep440_input_all_spellings", cases, **kw)
+    for c, x in zip(cases, rx):
+        if out_of(x[1]) is not None:
+            viol("out_of_range_numbers_in_pep440_input_all_spellings", "a PEP 440 number of 2^32 or more was not refused but read as something else", [describe(c) if "describe" in globals() else c, x[1]])
     return run
 
 
